@@ -145,6 +145,9 @@ AddCrit(t) ==
      ELSE IF o.sh = "beyond" THEN
         /\ Finish(t, [NoRet EXCEPT !.err = "beyond"])
         /\ UNCHANGED <<hasbuf, cont, count>>
+     ELSE IF o.sh = "nomem" /\ ~hasbuf[i] THEN    \* the piece needs a buffer and the allocation is refused: nothing changes
+        /\ Finish(t, [NoRet EXCEPT !.err = "nomem"])
+        /\ UNCHANGED <<hasbuf, cont, count>>
      ELSE
         LET cov   == IF o.sh = "short" THEN {} ELSE Covered(i, o.c, o.n)
             ncont == [c \in Chunks(i) |->
